@@ -10,7 +10,7 @@ import ast
 from ..affine import Aff, sym, NotAffine
 from ..astutil import (u, atoms, guard_map, path_atoms, stmts_in, calls_in, callee, callee_attr, reaching_def,
                        def_value, PARAM, AMBIGUOUS, raised_name, walk_no_nested, get_arg)
-from ..mini import Mini, Return
+from ..mini import Mini, Return, Opaque
 from ..report import Undecided
 
 PYX = 'gambit._cython.metric'
@@ -343,69 +343,214 @@ def eval_dtype_list(ctx, module, node):
     raise Undecided(f'dtype list: {u(node)}')
 
 
+class _DT:
+    """A numpy dtype of the finite domain, by its two-character code (u2, i8, f4 ...)."""
+    NAMES = {'uint8': 'u1', 'uint16': 'u2', 'uint32': 'u4', 'uint64': 'u8', 'int8': 'i1', 'int16': 'i2', 'int32': 'i4', 'int64': 'i8', 'float32': 'f4', 'float64': 'f8',
+             'bool': 'b1', 'intp': 'i8', 'uintp': 'u8'}
+
+    def __init__(self, code):
+        self.code = code
+
+    @classmethod
+    def of(cls, v):
+        if isinstance(v, _DT):
+            return v
+        if isinstance(v, str):
+            t = v.lstrip('<>=|')
+            t = cls.NAMES.get(t, t)
+            if len(t) == 2 and t[0] in 'uifb' and t[1] in '1248':
+                return cls(t)
+        raise Undecided(f'dtype gate: cannot interpret {v!r} as a dtype of the domain')
+
+    kind = property(lambda self: self.code[0])
+    itemsize = property(lambda self: int(self.code[1]))
+    str = property(lambda self: '<' + self.code)
+    char = property(lambda self: self.code)
+    name = property(lambda self: {v: k for k, v in _DT.NAMES.items() if k not in ('intp', 'uintp')}.get(self.code, self.code))
+
+    def __eq__(self, o):
+        return isinstance(o, _DT) and o.code == self.code
+
+    def __hash__(self):
+        return hash(self.code)
+
+    def __repr__(self):
+        return self.code
+
+
+class _ARR:
+    def __init__(self, dt, how='same'):
+        self.dt, self.how = dt, how
+
+
+class _Raised(Exception):
+    def __init__(self, name):
+        self.name = name
+
+
+class _DtMini(Mini):
+    """Evaluates the dtype gate for ONE concrete dtype of the input array (the domain of dtypes is finite and enumerated completely)."""
+
+    def __init__(self, env, module):
+        super().__init__(env, on_call=self._call)
+        self.module = module
+        self._mod = {}
+
+    def ev(self, e):
+        if isinstance(e, ast.Name) and e.id not in self.env and e.id in self.module.assigns:
+            if e.id not in self._mod:
+                self._mod[e.id] = self.ev(self.module.assigns[e.id])
+            return self._mod[e.id]
+        if isinstance(e, ast.Attribute):
+            if u(e.value) in ('np', 'numpy') and e.attr in _DT.NAMES:
+                return _DT(_DT.NAMES[e.attr])
+            base = self.ev(e.value)
+            if isinstance(base, _ARR) and e.attr == 'dtype':
+                return base.dt
+            if isinstance(base, _ARR) and e.attr == 'itemsize':
+                return base.dt.itemsize
+            if isinstance(base, _DT) and e.attr in ('kind', 'itemsize', 'str', 'char', 'name'):
+                return getattr(base, e.attr)
+            raise Undecided(f'dtype gate: attribute {u(e)}')
+        if isinstance(e, ast.JoinedStr):
+            out = ''
+            for part in e.values:
+                if isinstance(part, ast.Constant):
+                    out += str(part.value)
+                elif isinstance(part, ast.FormattedValue) and part.format_spec is None and part.conversion == -1:
+                    v = self.ev(part.value)
+                    out += v.str if isinstance(v, _DT) else str(v)
+                else:
+                    raise Undecided(f'dtype gate: formatted string {u(e)}')
+            return out
+        if isinstance(e, ast.Constant) and isinstance(e.value, str):
+            return e.value
+        if isinstance(e, (ast.ListComp, ast.SetComp, ast.GeneratorExp)) and len(e.generators) == 1 and isinstance(e.generators[0].target, ast.Name):
+            g = e.generators[0]
+            out = []
+            for it in self.ev(g.iter):
+                saved = self.env.get(g.target.id, _DtMini)
+                self.env[g.target.id] = it
+                if all(self.truth(self.ev(c)) for c in g.ifs):
+                    out.append(self.ev(e.elt))
+                if saved is _DtMini:
+                    del self.env[g.target.id]
+                else:
+                    self.env[g.target.id] = saved
+            return tuple(out)
+        if isinstance(e, ast.Subscript):
+            base = self.ev(e.value)
+            if isinstance(base, dict):
+                k = self.ev(e.slice)
+                if k in base:
+                    return base[k]
+                raise _Raised('KeyError')
+        if isinstance(e, ast.Set):
+            return tuple(self.ev(x) for x in e.elts)
+        return super().ev(e)
+
+    def compare(self, op, l, r, node):
+        if isinstance(op, (ast.In, ast.NotIn)) and isinstance(r, (tuple, list, dict, set, frozenset)):
+            res = any(l == x for x in r)
+            return res if isinstance(op, ast.In) else not res
+        if isinstance(l, (_DT, str)) or isinstance(r, (_DT, str)):
+            if isinstance(op, (ast.Eq, ast.NotEq)):
+                if isinstance(l, _DT) and isinstance(r, str) or isinstance(r, _DT) and isinstance(l, str):
+                    try:
+                        l, r = _DT.of(l), _DT.of(r)
+                    except Undecided:
+                        pass
+                res = l == r
+                return res if isinstance(op, ast.Eq) else not res
+        return super().compare(op, l, r, node)
+
+    def _call(self, mini, e):
+        f = u(e.func)
+        if f in ('np.dtype', 'numpy.dtype') and len(e.args) == 1:
+            return _DT.of(self.ev(e.args[0]))
+        if f in ('tuple', 'list', 'set', 'frozenset') and len(e.args) == 1:
+            return tuple(self.ev(e.args[0]))
+        if f == 'dict' and len(e.args) == 1 and not e.keywords:
+            v = self.ev(e.args[0])
+            return dict(v) if not isinstance(v, dict) else dict(v)
+        if f == 'zip':
+            return tuple(zip(*[self.ev(a) for a in e.args]))
+        if isinstance(e.func, ast.Attribute):
+            base = self.ev(e.func.value)
+            if isinstance(base, _ARR) and e.func.attr in ('view', 'astype') and e.args:
+                return _ARR(_DT.of(self.ev(e.args[0])), e.func.attr if base.how == 'same' else f'{base.how}+{e.func.attr}')
+            if isinstance(base, dict) and e.func.attr == 'get':
+                k = self.ev(e.args[0])
+                return base.get(k, self.ev(e.args[1]) if len(e.args) > 1 else None)
+            if isinstance(base, dict) and e.func.attr in ('keys', 'values', 'items'):
+                return tuple(getattr(base, e.func.attr)())
+        if f in ('ValueError', 'TypeError', 'KeyError', 'RuntimeError', 'NotImplementedError'):
+            return Opaque(f)
+        raise Undecided(f'dtype gate: call {u(e)}')
+
+    def stmt(self, s):
+        if isinstance(s, ast.Raise):
+            raise _Raised(raised_name(s) or 'exception')
+        if isinstance(s, ast.Try):
+            try:
+                self.run(s.body)
+            except _Raised as r:
+                for h in s.handlers:
+                    names = [u(t) for t in (h.type.elts if isinstance(h.type, ast.Tuple) else [h.type])] if h.type is not None else None
+                    if names is None or r.name in names or 'Exception' in names:
+                        self.run(h.body)
+                        return
+                raise
+            self.run(s.orelse)
+            return
+        return super().stmt(s)
+
+
 def check_dtype_gate(ctx):
+    """The gate every coordinate operand passes on its way to the kernel, decided as a table over the complete finite domain of
+    numpy integer/float/bool dtypes: unsigned 16/32/64 pass unchanged, signed 16/32/64 are reinterpreted as the unsigned type of
+    the SAME width on the same array, everything else is rejected."""
     rep, m = ctx.rep, ctx.model
     met = m.module('gambit.metric')
     fi = m.func('gambit.metric._cast_sigs_array')
     rep.functions.add(fi.qualname)
     p = fi.params()[0]
     body = [s for s in fi.node.body if not (isinstance(s, ast.Expr) and isinstance(s.value, ast.Constant))]
-    # dt = arr.dtype
-    dtname = None
-    for s in body:
-        if isinstance(s, ast.Assign) and isinstance(s.targets[0], ast.Name) and u(s.value) == f'{p}.dtype':
-            dtname = s.targets[0].id
-    dtexpr = dtname or f'{p}.dtype'
-    ifs = [s for s in body if isinstance(s, ast.If)]
-    branches = {}
-    for s in ifs:
-        t = s.test
-        if isinstance(t, ast.Compare) and len(t.ops) == 1 and isinstance(t.ops[0], ast.In) and u(t.left) in (dtexpr, f'{p}.dtype') \
-                and isinstance(t.comparators[0], ast.Name) and t.comparators[0].id in met.assigns and not s.orelse:
-            branches[t.comparators[0].id] = s
-        else:
-            raise Undecided(f'_cast_sigs_array: unrecognised branch {u(t)}')
-    rep.require(len(branches) == 2, f'_cast_sigs_array: expected two dtype-membership branches, found {len(branches)}')
-    lists = {name: eval_dtype_list(ctx, met, met.assigns[name]) for name in branches}
-    passthru = [n for n, s in branches.items() if len(s.body) == 1 and isinstance(s.body[0], ast.Return) and u(s.body[0].value) == p]
-    rep.require(len(passthru) == 1, '_cast_sigs_array: no pass-through branch returning the array itself')
-    un = passthru[0]
-    sg = next(n for n in branches if n != un)
     types = m.module(TYPES)
     fused = types.side.get('typedefs', {}).get('COORDS_T')
     widths = sorted(int(x.replace('uint', '').replace('_t', '')) // 8 for x in fused[1]) if isinstance(fused, tuple) else None
-    site_u = (met.relpath, met.assigns[un].lineno, f'gambit.metric.{un}')
-    rep.add('M8', site_u, 'pass-through dtypes are exactly the unsigned types the kernel is compiled for',
-            sorted(lists[un]) == [f'u{w}' for w in (widths or [])], expected=[f'u{w}' for w in (widths or [])], found=lists[un], stmt=un)
-    site_s = (met.relpath, met.assigns[sg].lineno, f'gambit.metric.{sg}')
-    rep.add('M8', site_s, 'reinterpreted dtypes are the signed types of the same widths',
-            sorted(lists[sg]) == [f'i{w}' for w in (widths or [])], expected=[f'i{w}' for w in (widths or [])], found=lists[sg], stmt=sg)
-    # signed branch: return arr.view(<unsigned of the same itemsize>)
-    sb = branches[sg]
-    rets = [s for s in sb.body if isinstance(s, ast.Return)]
-    rep.require(len(rets) == 1 and isinstance(rets[0].value, ast.Call), '_cast_sigs_array: signed branch does not return a call')
-    call = rets[0].value
-    meth = callee_attr(call)
-    recv = u(call.func.value) if isinstance(call.func, ast.Attribute) else None
-    arg = call.args[0] if call.args else None
-    if isinstance(arg, ast.Name):
-        d = [s for s in sb.body if isinstance(s, ast.Assign) and isinstance(s.targets[0], ast.Name) and s.targets[0].id == arg.id]
-        arg = d[-1].value if d else arg
-    same_width = False
-    if isinstance(arg, ast.Call) and u(arg.func) in ('np.dtype', 'numpy.dtype') and arg.args:
-        arg = arg.args[0]
-    if isinstance(arg, ast.JoinedStr) and len(arg.values) == 2 and isinstance(arg.values[0], ast.Constant) and arg.values[0].value == 'u' \
-            and isinstance(arg.values[1], ast.FormattedValue) and u(arg.values[1].value) in (f'{dtexpr}.itemsize', f'{p}.dtype.itemsize', f'{p}.itemsize'):
-        same_width = True
-    rep.add('M8', fi.site(rets[0]), 'signed input is reinterpreted as the unsigned dtype of the SAME item size, on the same array',
-            meth in ('view', 'astype') and recv == p and same_width, expected=f"{p}.view(np.dtype(f'u{{{dtexpr}.itemsize}}'))",
-            found=u(call), stmt=rets[0])
-    # everything else raises ValueError
-    last = body[-1]
-    rep.add('M8', fi.site(last), 'every other dtype is rejected with ValueError', isinstance(last, ast.Raise) and raised_name(last) == 'ValueError',
-            expected='raise ValueError', found=u(last)[:60], stmt='reject')
-    other_rets = [s for s in stmts_in(fi.node.body) if isinstance(s, ast.Return) and s not in rets and u(s.value) != p]
-    rep.add('M8', fi.site(), 'no other return path', not other_rets, expected='none', found=[u(r) for r in other_rets], stmt='returns')
+    rep.require(widths, 'COORDS_T fused type not found in types.pxd')
+    table = {}
+    for code in ('u1', 'u2', 'u4', 'u8', 'i1', 'i2', 'i4', 'i8', 'f4', 'f8', 'b1'):
+        mini = _DtMini({p: _ARR(_DT(code))}, met)
+        try:
+            mini.run(body)
+            res = ('falls off the end',)
+        except Return as r:
+            v = r.value
+            res = (v.how, v.dt.code) if isinstance(v, _ARR) else ('returns', repr(v))
+        except _Raised as r:
+            res = ('raise', r.name)
+        table[code] = res
+    exp = {}
+    for code in table:
+        w = int(code[1])
+        if code[0] == 'u' and w in widths:
+            exp[code] = [('same', code)]
+        elif code[0] == 'i' and w in widths:
+            exp[code] = [('view', f'u{w}'), ('astype', f'u{w}')]
+        else:
+            exp[code] = [('raise', 'ValueError')]
+    site = fi.site()
+    bad_u = {c: table[c] for c in table if c[0] == 'u' and table[c] not in exp[c]}
+    bad_i = {c: table[c] for c in table if c[0] == 'i' and table[c] not in exp[c]}
+    bad_o = {c: table[c] for c in table if c[0] not in 'ui' and table[c] not in exp[c]}
+    rep.add('M8', site, 'pass-through dtypes are exactly the unsigned types the kernel is compiled for (narrower unsigned types are rejected)', not bad_u,
+            expected={c: exp[c][0] for c in exp if c[0] == 'u'}, found=bad_u or {c: table[c] for c in table if c[0] == 'u'}, stmt='unsigned dtypes')
+    rep.add('M8', site, 'signed input is reinterpreted as the unsigned dtype of the SAME item size, on the same array (narrower signed types are rejected)', not bad_i,
+            expected={c: exp[c][0] for c in exp if c[0] == 'i'}, found=bad_i or {c: table[c] for c in table if c[0] == 'i'}, stmt='signed dtypes')
+    rep.add('M8', site, 'every other dtype is rejected with ValueError', not bad_o, expected='raise ValueError', found=bad_o or {c: table[c] for c in table if c[0] not in 'ui'}, stmt='reject')
+    rep.info['dtype_gate_table'] = {c: list(v) for c, v in table.items()}
 
     # callers: every coordinate operand of a kernel call went through the gate
     ncalls = 0
@@ -486,6 +631,15 @@ _M = 'src/gambit/_cython/metric.pyx'
 _P = 'src/gambit/metric.py'
 _T = 'src/gambit/_cython/types.pxd'
 VARIANTS = [
+    V('signed dtypes mapped through a table with a wrong row (seeded C02c)', 'B', _P, "_COORDS_SIGNED_DTYPES = [np.dtype(f'i{s}') for s in [2, 4, 8]]\n",
+      "_COORDS_SIGNED_DTYPES = {np.dtype('i2'): np.dtype('u2'), np.dtype('i4'): np.dtype('u4'), np.dtype('i8'): np.dtype('u4')}\n", 'M8',
+      also=((_P, "\t\tnew_dt = np.dtype(f'u{dt.itemsize}')\n\t\treturn arr.view(new_dt)\n", "\t\treturn arr.view(_COORDS_SIGNED_DTYPES[dt])\n"),)),
+    V('E: signed dtypes mapped through a correct table', 'E', _P, "_COORDS_SIGNED_DTYPES = [np.dtype(f'i{s}') for s in [2, 4, 8]]\n",
+      "_COORDS_SIGNED_DTYPES = {np.dtype('i2'): np.dtype('u2'), np.dtype('i4'): np.dtype('u4'), np.dtype('i8'): np.dtype('u8')}\n",
+      also=((_P, "\t\tnew_dt = np.dtype(f'u{dt.itemsize}')\n\t\treturn arr.view(new_dt)\n", "\t\treturn arr.view(_COORDS_SIGNED_DTYPES[dt])\n"),)),
+    V('E: gate written with dtype.kind and an else-raise', 'E', _P, "\tif dt in _COORDS_UNSIGNED_DTYPES:\n\t\treturn arr\n\tif dt in _COORDS_SIGNED_DTYPES:\n\t\tnew_dt = np.dtype(f'u{dt.itemsize}')\n\t\treturn arr.view(new_dt)\n\traise ValueError(",
+      "\tif dt.itemsize in (2, 4, 8) and dt.kind == 'u':\n\t\treturn arr\n\telif dt.itemsize in (2, 4, 8) and dt.kind == 'i':\n\t\treturn arr.view(np.dtype(f'u{dt.itemsize}'))\n\traise ValueError("),
+    V('gate lets uint8 through', 'B', _P, "_COORDS_UNSIGNED_DTYPES = [np.dtype(f'u{s}') for s in [2, 4, 8]]", "_COORDS_UNSIGNED_DTYPES = [np.dtype(f'u{s}') for s in [1, 2, 4, 8]]", 'M8'),
     V('second if -> elif (equal elements double counted)', 'B', _M, "\t\tif b <= a:\n\t\t\tj += 1", "\t\telif b <= a:\n\t\t\tj += 1", 'M1'),
     V('a <= b -> a < b', 'B', _M, "\t\tif a <= b:\n\t\t\ti += 1", "\t\tif a < b:\n\t\t\ti += 1", 'M1'),
     V('tail term dropped', 'B', _M, "\tu += N - i\n\tu += M - j\n", "\tu += N - i\n", 'M2'),
